@@ -194,8 +194,10 @@ def _inspect_process_ir_param(param, sig):
         return name, _param
     sig_param: inspect.Parameter = sig.parameters[name]
     if sig_param.annotation is not _empty:
-        _param["typ"] = lstrip_typings(
-            "{annotation!s}".format(annotation=sig_param.annotation)
+        _param["typ"] = (
+            sig_param.annotation
+            if isinstance(sig_param.annotation, str)
+            else inspect.formatannotation(sig_param.annotation)
         )
     if sig_param.default is not _empty:
         _param["default"] = sig_param.default
